@@ -12,6 +12,9 @@ import (
 // stdlibEffects reports heap sorts written by modelled library functions.
 func stdlibEffects(fn *ssa.Function) ([]string, bool) {
 	name := fn.String()
+	if i := strings.Index(name, "["); i > 0 {
+		name = name[:i] // instance of a generic library function
+	}
 	switch {
 	case strings.HasPrefix(name, "encoding/binary.PutUvarint"), strings.HasPrefix(name, "encoding/binary.PutVarint"),
 		strings.Contains(name, "Endian).PutUint"), strings.HasPrefix(name, "encoding/binary.AppendUvarint"), strings.Contains(name, "Endian).AppendUint"):
@@ -171,6 +174,9 @@ func (a *Activation) readEndian(st *State, buf Term, nbytes int, bigEndian bool,
 func (a *Activation) stdlibCall(st *State, callee *ssa.Function, cc *ssa.CallCommon, args []Val, resT types.Type, pos token.Pos) (Val, bool) {
 	g := a.g
 	name := callee.String()
+	if i := strings.Index(name, "["); i > 0 && !strings.HasPrefix(name, "(") {
+		name = name[:i] // instance of a generic library function
+	}
 	mark := func() { g.stdUsed[name] = true }
 	errType := types.Universe.Lookup("error").Type()
 	switch name {
@@ -290,6 +296,9 @@ func (a *Activation) stdlibCall(st *State, callee *ssa.Function, cc *ssa.CallCom
 		under := app(SLoc, "iface_loc", args[0].T)
 		st.heaps["Avail"] = sto(g.heap(st, "Avail"), obj, sel(g.heap(st, "Avail"), under))
 		return Val{T: obj}, true
+	case "os.IsNotExist", "os.IsExist", "os.IsPermission", "os.IsTimeout":
+		mark()
+		return a.havocValue(st, resT, "oserr"), true
 	case "context.Background", "context.TODO":
 		mark()
 		return a.havocValue(st, resT, "ctx"), true
